@@ -604,9 +604,19 @@ class Frame:
         if isinstance(it, (SZeros,)):
             n = self.I.ctx.concretize(it.n)
             return [0] * n
+        if isinstance(it, V.SymRange):
+            return self._iter_symrange(it)
         if is_sym(it):
             raise Unsupported("iteration over %s" % type(it).__name__)
         return it
+
+    def _iter_symrange(self, r):
+        k = 0
+        while self.I.truth(V.compare("<", V.arith("+", r.start, k * r.step), r.stop)):
+            yield V.arith("+", r.start, k * r.step)
+            k += 1
+            if k > getattr(self.I.ctx, "concrete_loop_bound", 1000000):
+                raise V.LoopBound()
 
     def s_For(self, s):
         it = self.ev(s.iter)
@@ -1088,6 +1098,17 @@ class Frame:
             nbound = hi_r - lo_r if nbound is None else min(nbound, hi_r - lo_r)
         elif isinstance(lo_r, int) and lo_r >= 0 and nbound is not None:
             nbound = max(0, nbound - lo_r)
+        # a slice with concrete bounds usually has its full length once the path knows the buffer is long enough:
+        # one feasibility query pins it to a concrete length (keeps the decode terms free of if-then-else chains)
+        if not z3.is_int_value(ln) and isinstance(lo_r, int) and isinstance(hi_r, int) and 0 <= lo_r <= hi_r:
+            full = hi_r - lo_r
+            if not ctx.feasible(ln != full):
+                ln = z3.IntVal(full)
+                start = z3.simplify(off + lo_r) if not z3.is_int_value(z3.simplify(off)) else z3.IntVal(z3.simplify(off).as_long() + lo_r)
+                off_c = ctx.define("off", start)
+                nn = full
+                oo = off_c.as_long() if z3.is_int_value(off_c) else SInt(off_c, 0, None)
+                return SBuf(buf.arr, oo, nn)
         ln_c = ctx.define("len", ln)
         off_c = ctx.define("off", off + start)
         nn = ln_c.as_long() if z3.is_int_value(ln_c) else SInt(ln_c, 0, nbound)
